@@ -3,6 +3,7 @@ package rules
 import (
 	"fmt"
 	"go/token"
+	"go/types"
 	"sort"
 
 	"golang.org/x/tools/go/ssa"
@@ -47,6 +48,27 @@ func exploreCrashConstructs(p *core.Prog, reach map[*ssa.Function]bool) {
 				case *ssa.BinOp:
 					if x.Op == token.QUO || x.Op == token.REM {
 						fmt.Println("DIV", fn.String(), p.Pos(x.Pos()), x.X.Type())
+					}
+					if x.Op == token.EQL || x.Op == token.NEQ {
+						if _, ok := x.X.Type().Underlying().(*types.Interface); ok {
+							cx, _ := x.X.(*ssa.Const)
+							cy, _ := x.Y.(*ssa.Const)
+							if cx == nil && cy == nil {
+								fmt.Println("IFACE-EQ", fn.String(), p.Pos(x.Pos()), x.X.Type(), x.X, x.Y)
+							}
+						}
+					}
+				case *ssa.MapUpdate:
+					if mt, ok := x.Map.Type().Underlying().(*types.Map); ok {
+						if _, ok := mt.Key().Underlying().(*types.Interface); ok {
+							fmt.Println("IFACE-MAPKEY-UPDATE", fn.String(), p.Pos(x.Pos()), mt, x.Key)
+						}
+					}
+				case *ssa.Lookup:
+					if mt, ok := x.X.Type().Underlying().(*types.Map); ok {
+						if _, ok := mt.Key().Underlying().(*types.Interface); ok {
+							fmt.Println("IFACE-MAPKEY-LOOKUP", fn.String(), p.Pos(x.Pos()), mt, x.Index)
+						}
 					}
 				case ssa.CallInstruction:
 					if sc := x.Common().StaticCallee(); sc != nil && sc.Pkg != nil && !core.SSAFuncInRepo(sc) {
